@@ -13,7 +13,7 @@ from .contracts import REGISTRY, LEMMAS
 from .engine import Exec, Unsupported, SpecDrift, solve, Obligation, State
 from .source import Repo, normalized_hash
 
-SPEC_MODULES = ["specs.heap", "specs.graph", "specs.supervised", "specs.semi", "specs.knn", "specs.arcs", "specs.knn_predict", "specs.kselect"]
+SPEC_MODULES = ["specs.heap", "specs.graph", "specs.supervised", "specs.semi", "specs.knn", "specs.arcs", "specs.knn_predict", "specs.kselect", "specs.general"]
 
 
 def load_specs():
@@ -59,6 +59,15 @@ def _verify_one(args):
                 fname = vecexpr.registry(repo).get(nm)
                 if fname and ("opfython.math.distance." + fname) in repo.functions:
                     out["hash"] = normalized_hash(repo.function("opfython.math.distance." + fname)[0])
+        elif qualname.startswith("static:"):
+            from .contracts import STATICS
+            from .engine import Obligation as _Ob
+            out["kind"] = "static"
+            obs = []
+            for (nm, ok, line, text) in STATICS[qualname[7:]](repo):
+                ob = _Ob("%s/static/%s" % (qualname, nm), "static", z3.BoolVal(bool(ok)), [], line, text)
+                ob.defs = []
+                obs.append(ob)
         elif qualname.startswith("effects:"):
             from . import effects
             out["kind"] = "effects"
@@ -135,6 +144,8 @@ def verify_lemma(repo, lem):
     lo, hi = lem.lo(**args), lem.hi(**args)
     st.assume(L.between(lo, k, hi))
     st.assume(L.forall(lo, k, lambda j: lem.concl(k=j, **args)))
+    # the instance of the induction hypothesis at the predecessor, spelled out (nested quantifiers give no trigger)
+    st.assume(L.implies(L.le(lo, k - 1), lem.concl(k=k - 1, **args)))
     if lem.hints:
         for name, term in lem.hints(k=k, **args):
             ex.oblige(st, "lemma", lem.name, "hint." + name, term)
